@@ -3,7 +3,7 @@
 (*   cust  logic.CustomizePubSessionContext -> remux.AvPacket2RtmpRemuxer                        *)
 (*   rtsp  RTP -> rtprtcp.RtpUnpackContainer/unpackers -> rtsp.AvPacketQueue -> remuxer          *)
 (*   ps    RTP -> gb28181.PsUnpacker (PES reassembly, frame boundary = PTS change) -> remuxer    *)
-(* A source stream is a sequence of frames [trk, ts, d, us]: track "v"/"a", source timestamp ts    *)
+(* A source stream is a sequence of frames [trk, ts, d, g, us]: track "v"/"a", source timestamp ts *)
 (* (the source's clock as it runs on, NOT reduced to the width of the wire field: 48 bits, three   *)
 (* 16-bit limbs <<h, m, l>>; ticks of the track's clock, ms for cust, 90 kHz PTS for ps), d = PTS  *)
 (* minus DTS in ticks (ps with a DTS field, one constant per track; 0 otherwise) and units         *)
@@ -11,6 +11,12 @@
 (* (parameter sets: number of filler bytes after the syntax prefix).  What travels on the wire is  *)
 (* the clock modulo the width of the field (WBits): 2^32 for RTP timestamps, 2^33 for PES PTS/DTS, *)
 (* the whole int64 for AvPacket.Timestamp of the customize-pub API.                                *)
+(* g > 0 (AAC in ADTS, which is self-framing): the frame has no timestamp of its own on the wire,  *)
+(* it is the g-th frame behind the audio frame whose PES it rides in (one PES header, one PTS, the *)
+(* ADTS frames back to back; ISO 13818-1 2.4.3.7: a PTS refers to the first access unit that       *)
+(* commences in the PES packet).  Its source time is the implied one: the time of that head frame  *)
+(* plus g * 1024 samples at the sampling rate of the ADTS header, in ticks of the track's clock     *)
+(* (ImpOff, rounded down to a tick); its ts field is not read.                                     *)
 (* The output is the sequence of messages a subscriber received:                                  *)
 (*   [t |-> "meta"]   [t |-> "vsh", ts, sets: <<[k, n, eq]>>, ok]   [t |-> "ash", ts, asc, ok]      *)
 (*   [t |-> "v", key, ts, us: <<[k, id, n, eq]>>, ok]   [t |-> "a", fmt, ts, us, ok]               *)
@@ -30,6 +36,8 @@
 (*          1  the wire field itself, ts mod 2^WBits (the output repeats the jump of -2^WBits     *)
 (*             ticks the source's field makes when it wraps, and nothing else)                    *)
 (*          2  ps: the DTS field, (ts - d) mod 2^33                                               *)
+(*        a frame that rides in the PES of a head frame (g > 0) stands ImpOff ticks behind its    *)
+(*        head in every view (it has no field of its own that could wrap)                         *)
 (*        Below the wrap of the field the views differ by a constant; a jump anywhere else (2^31, *)
 (*        2^32 on the 33-bit PS clock, 2^32 ms of the customize API) fits no view.                *)
 (*   ReorderInvariant  Conforms does not mention the arrival order: every arrival order inside    *)
@@ -49,6 +57,8 @@ USub(a, b) == LET lo == a[2] - b[2]
                   br == IF lo < 0 THEN 1 ELSE 0
                   hi == (a[1] - b[1]) - br
               IN  <<(hi + 65536) % 65536, (lo + 65536) % 65536>>
+UAddN(a, k) == LET lo == a[2] + k                            \* 0 <= k < 2^31 - 2^16, modulo 2^32
+               IN  <<(a[1] + (lo \div 65536)) % 65536, lo % 65536>>
 Small(a) == a[1] < 32768
 ToInt(a) == a[1] * 65536 + a[2]
 \* floor(d * 1000 / rate) for 0 <= d < 2^31, 1000 <= rate <= 96000, without overflow
@@ -74,18 +84,34 @@ DivR(dg, i, r, q, rem) == IF i > Len(dg) THEN [q |-> q, rem |-> rem]
 MsT(x, rate) == LET y == DivR(<<x[1] \div 256, x[1] % 256, x[2] \div 256, x[2] % 256, x[3] \div 256, x[3] % 256>>, 1, rate, 0, 0)
                 IN  y.q * 1000 + ((y.rem * 1000) \div rate)
 InRange(x, rate) == x[1] < (IF rate < 8000 THEN 1 ELSE 3) /\ (rate >= 8000 \/ x[2] < 32768)
-\* o, o0: output timestamps (32 bits); v, v0: the source clock of the two units in one view
-Aff(o, o0, v, v0, rate) ==
+\* o, o0: output timestamps (32 bits); v, v0: the source clock of the two units in one view; rid: the unit rides in
+\* the PES of a head frame, its time is the sum of two conversions (head, offset): where the unit stands BEFORE the
+\* first one in the view (wrap of the field), the signed difference may be truncated either way (floor of the
+\* negative difference as TimeAffine is written, or of its absolute value as for every other unit)
+Aff(o, o0, v, v0, rate, rid) ==
   IF T3Lt(v, v0)
   THEN LET dd == USub(o0, o)
            ds == T3Sub(v0, v)
-       IN Small(dd) /\ InRange(ds, rate) /\ Abs(ToInt(dd) - MsT(ds, rate)) <= 1
+           e == ToInt(dd) - MsT(ds, rate)
+       IN Small(dd) /\ InRange(ds, rate) /\ (IF rid THEN e \in -1..2 ELSE Abs(e) <= 1)
   ELSE LET dd == USub(o, o0)
            ds == T3Sub(v, v0)
        IN Small(dd) /\ InRange(ds, rate) /\ Abs(ToInt(dd) - MsT(ds, rate)) <= 1
 WBits(path) == IF path = "rtsp" THEN 32 ELSE IF path = "ps" THEN 33 ELSE 0
 Views(path) == IF path = "rtsp" THEN {0, 1} ELSE IF path = "ps" THEN {0, 1, 2} ELSE {0}
 ViewOf(f, c, w) == IF c = 0 THEN f.ts ELSE IF c = 1 THEN Mask(f.ts, w) ELSE Mask(T3SubN(f.ts, f.d), w)
+\* frames that ride in the PES of an earlier audio frame: g * 1024 samples at fs Hz in ticks of a clock of `tick` Hz
+SamplesPerAac == 1024
+ImpOff(g, tick, fs) == (g * SamplesPerAac * tick) \div fs       \* g <= 20 at 90 kHz: below 2^31
+RECURSIVE PrevOf(_, _, _)
+PrevOf(frames, i, t) == IF i < 1 THEN 0 ELSE IF frames[i].trk = t THEN i ELSE PrevOf(frames, i - 1, t)
+RECURSIVE HeadOf(_, _, _)
+HeadOf(frames, j, g) ==                                          \* the g-th frame of j's track before j
+  IF g = 0 THEN j
+  ELSE LET i == PrevOf(frames, j - 1, frames[j].trk) IN IF i = 0 THEN j ELSE HeadOf(frames, i, g - 1)
+ViewAt(frames, j, c, w, tick, fs) ==
+  IF frames[j].g = 0 THEN ViewOf(frames[j], c, w)
+  ELSE T3AddN(ViewOf(frames[HeadOf(frames, j, frames[j].g)], c, w), ImpOff(frames[j].g, tick, fs))
 
 ---------------------------------------------------------------------------
 (* What the source defines.                                                                       *)
@@ -151,12 +177,13 @@ Same(o, r) == /\ o.t = r.t /\ o.ok
               /\ IF o.t = "sh" THEN o.sets = r.sets ELSE (o.k = r.k /\ o.id = r.id /\ o.n = r.n)
 SameFrom(obs, req, k) == /\ Len(obs) = (Len(req) - k) + 1
                          /\ \A i \in 1..Len(obs) : Same(obs[i], req[(k + i) - 1])
-TimeOk(path, obs, req, k, frames, rate) ==
+\* rate: ticks per second of the track's source clock; fs: sampling rate of the ADTS header (frames with g > 0)
+TimeOk(path, obs, req, k, frames, rate, fs) ==
   LET ui == {i \in 1..Len(obs) : obs[i].t = "u"} IN
   ui = {} \/ LET a == CHOOSE x \in ui : \A y \in ui : x <= y IN
              \E c \in Views(path) :
-               \A i \in ui : Aff(obs[i].ts, obs[a].ts, ViewOf(frames[req[(k + i) - 1].f], c, WBits(path)),
-                                 ViewOf(frames[req[(k + a) - 1].f], c, WBits(path)), rate)
+               \A i \in ui : Aff(obs[i].ts, obs[a].ts, ViewAt(frames, req[(k + i) - 1].f, c, WBits(path), rate, fs),
+                                 ViewAt(frames, req[(k + a) - 1].f, c, WBits(path), rate, fs), rate, frames[req[(k + i) - 1].f].g > 0)
 \* the ps path forwards video from the first parameter set on
 FirstSh(req) == LET s == {i \in 1..Len(req) : req[i].t = "sh"} IN
                 IF s = {} THEN Len(req) + 1 ELSE CHOOSE x \in s : \A y \in s : x <= y
@@ -168,11 +195,11 @@ ARate(path, arate) == IF path = "cust" THEN 1000 ELSE IF path = "ps" THEN 90000 
 SameUnitsV(path, vc, frames, sdp, vrate, out) ==
   LET req == SelectSeq(ReqV(vc, frames, sdp), NotSent)
       obs == Obs(out, {"vsh", "v"})
-  IN \E k \in 1..K0(path, req) : SameFrom(obs, req, k) /\ TimeOk(path, obs, req, k, frames, VRate(path, vrate))
+  IN \E k \in 1..K0(path, req) : SameFrom(obs, req, k) /\ TimeOk(path, obs, req, k, frames, VRate(path, vrate), 1)
 SameUnitsA(path, ac, frames, asc, arate, out) ==
   LET req == SelectSeq(ReqA(ac, frames, asc), NotSent)
       obs == Obs(out, {"ash", "a"})
-  IN SameFrom(obs, req, 1) /\ TimeOk(path, obs, req, 1, frames, ARate(path, arate))
+  IN SameFrom(obs, req, 1) /\ TimeOk(path, obs, req, 1, frames, ARate(path, arate), IF arate > 0 THEN arate ELSE 1)
 KeyMarked(out) ==
   \A i \in 1..Len(out) :
      out[i].t = "v" => /\ Len(out[i].us) >= 1
@@ -203,19 +230,22 @@ RemuxUnits(vc, us, i, ps, ms, data) ==          \* -> [msgs, ps, data]
             ELSE RemuxUnits(vc, us, i + 1, p2, ms, data)
        ELSE RemuxUnits(vc, us, i + 1, ps, ms, Append(data, [k |-> u.k, id |-> u.id, n |-> u.n, eq |-> TRUE]))
 Fmt(ac) == IF ac = "aac" THEN 175 ELSE IF ac = "pcma" THEN 114 ELSE IF ac = "pcmu" THEN 130 ELSE 223
-RemuxPkt(vc, ac, ps, p) ==                       \* -> [msgs, ps]
+\* an audio AvPacket carries one frame or (AAC in ADTS) several ADTS frames back to back: one message per frame,
+\* whatever its size, the x-th at the packet's timestamp + (x - 1) * 1024 samples in ms, computed from x each time
+RemuxPkt(vc, ac, fs, ps, p) ==                   \* -> [msgs, ps]
   IF p.trk = "a"
-  THEN [msgs |-> <<[t |-> "a", fmt |-> Fmt(ac), ts |-> p.ms, ok |-> TRUE,
-                    us |-> <<[k |-> "au", id |-> p.us[1].id, n |-> p.us[1].n, eq |-> TRUE]>>]>>, ps |-> ps]
+  THEN [msgs |-> [x \in 1..Len(p.us) |->
+                    [t |-> "a", fmt |-> Fmt(ac), ts |-> UAddN(p.ms, ImpOff(x - 1, 1000, fs)), ok |-> TRUE,
+                     us |-> <<[k |-> "au", id |-> p.us[x].id, n |-> p.us[x].n, eq |-> TRUE]>>]], ps |-> ps]
   ELSE LET r == RemuxUnits(vc, p.us, 1, ps, p.ms, <<>>)
            key == \E j \in 1..Len(r.data) : r.data[j].k = "idr"       \* any IDR/IRAP unit of the packet
        IN [msgs |-> r.msgs \o (IF r.data = <<>> THEN <<>>
                                ELSE <<[t |-> "v", key |-> key, ts |-> p.ms, us |-> r.data, ok |-> TRUE]>>),
            ps |-> r.ps]
-RECURSIVE RemuxAll(_, _, _, _, _, _)
-RemuxAll(vc, ac, pkts, i, ps, acc) ==
+RECURSIVE RemuxAll(_, _, _, _, _, _, _)
+RemuxAll(vc, ac, fs, pkts, i, ps, acc) ==
   IF i > Len(pkts) THEN acc
-  ELSE LET r == RemuxPkt(vc, ac, ps, pkts[i]) IN RemuxAll(vc, ac, pkts, i + 1, r.ps, acc \o r.msgs)
+  ELSE LET r == RemuxPkt(vc, ac, fs, ps, pkts[i]) IN RemuxAll(vc, ac, fs, pkts, i + 1, r.ps, acc \o r.msgs)
 
 \* rtsp.AvPacketQueue (TimestampFilterHandleRotateFlag): every track re-based to 0, merge by time;
 \* q = [a, v, pa, pv, out]; pX = [o, m] previous origin / modified timestamp (-1 = none)
@@ -257,18 +287,24 @@ RtpPkts(frames, plan, vrate, arate) ==
 \* the PS path: every frame is written as PES packets of its track; a PES with a PTS that differs
 \* from the one under assembly closes the frame under assembly; every NAL unit of a closed video
 \* frame is one AvPacket, forwarded from the first parameter set on; the last frame of a track
-\* stays in the buffer.  Video takes the 33-bit PTS field / 90, audio the DTS field / 90
+\* stays in the buffer.  Video takes the 33-bit PTS field / 90, audio the DTS field / 90.  An audio frame that
+\* rides in the PES of the frame under assembly (g > 0) has no PTS of its own and closes nothing: it travels in
+\* the AvPacket of its head frame, ADTS frame after ADTS frame
+RECURSIVE GroupUs(_, _, _)
+GroupUs(frames, i, j) == IF i > j THEN <<>>                      \* the units of the audio frames i..j
+                         ELSE (IF frames[i].trk = "a" THEN frames[i].us ELSE <<>>) \o GroupUs(frames, i + 1, j)
 PsMs(f) == MsT(Mask(IF f.trk = "a" THEN T3SubN(f.ts, f.d) ELSE f.ts, 33), 90000)
 RECURSIVE PsFrom(_, _, _, _, _)
 PsFrom(frames, j, cur, wait, acc) ==      \* cur = [v |-> frame under assembly or 0, a |-> ...]
   IF j > Len(frames) THEN acc
   ELSE LET t == frames[j].trk
            c == cur[t]
-       IN IF c = 0 THEN PsFrom(frames, j + 1, [cur EXCEPT ![t] = j], wait, acc)
+       IN IF t = "a" /\ frames[j].g > 0 THEN PsFrom(frames, j + 1, cur, wait, acc)
+          ELSE IF c = 0 THEN PsFrom(frames, j + 1, [cur EXCEPT ![t] = j], wait, acc)
           ELSE LET f == frames[c]
                    ms == PsMs(f)
                IN IF t = "a"
-                  THEN PsFrom(frames, j + 1, [cur EXCEPT ![t] = j], wait, Append(acc, [trk |-> "a", ms |-> ms, us |-> f.us]))
+                  THEN PsFrom(frames, j + 1, [cur EXCEPT ![t] = j], wait, Append(acc, [trk |-> "a", ms |-> ms, us |-> GroupUs(frames, c, j - 1)]))
                   ELSE LET firstSet == {i \in 1..Len(f.us) : f.us[i].k \in ParamKinds}
                            from == IF ~wait THEN 1
                                    ELSE IF firstSet = {} THEN Len(f.us) + 1
@@ -291,7 +327,7 @@ Machine(path, vc, ac, vrate, arate, asc, sdp, frames, plan) ==
       pre == (IF ac = "aac" /\ (path # "ps" \/ HasTrk(frames, "a")) THEN <<[t |-> "ash", ts |-> <<0, 0>>, asc |-> asc, ok |-> TRUE]>> ELSE <<>>)
              \o (IF sdp = <<>> THEN <<>>
                  ELSE <<[t |-> "vsh", ts |-> <<0, 0>>, ok |-> TRUE, sets |-> [x \in 1..Len(sdp) |-> [k |-> sdp[x].k, n |-> sdp[x].n, eq |-> TRUE]]]>>)
-  IN <<[t |-> "meta"]>> \o pre \o RemuxAll(vc, ac, pk, 1, NoSets, <<>>)
+  IN <<[t |-> "meta"]>> \o pre \o RemuxAll(vc, ac, IF arate > 0 THEN arate ELSE 1, pk, 1, NoSets, <<>>)
 
 ---------------------------------------------------------------------------
 (* The reorder window (as in Rtp.tla): a packet may overtake at most W-1 older packets that have  *)
